@@ -46,6 +46,7 @@ func (c *Config) getScannerConfig() scanner.Config {
 	// todo: expose TTL as args
 	return scanner.Config{
 		CompactKey: getCompactKey(c.Prefix),
+		TTLPrefix:  getEventsPrefix(c.Prefix),
 		Tombstone:  tombStoneBytes,
 		TTL:        time.Second * time.Duration(eventsTTL),
 	}
@@ -55,6 +56,12 @@ func (c *Config) complete() {
 	if c.WatchCacheSize <= 0 {
 		c.WatchCacheSize = historyCapacity
 	}
+}
+
+// getEventsPrefix returns the prefix of Kubernetes Event records: keys in the events resource directory
+// directly under the prefix, not any key whose name merely contains an "events" path segment.
+func getEventsPrefix(prefix string) []byte {
+	return append([]byte(prefix), events...)
 }
 
 func getCompactKey(prefix string) []byte {
